@@ -34,6 +34,9 @@ enum Effect {
     SpawnChild,
     Casts,
     QueuedCall,
+    /// another task joins the starting actor to a group, makes it a group monitor and links it under T,
+    /// from outside, while its start fails (explored at the granularity of pg's / the tree's own steps)
+    Outsider,
 }
 
 #[derive(Clone, Debug)]
@@ -80,7 +83,7 @@ async fn run(sc: Sc) -> Outcome {
     }));
     let (t2, peer2, log2) = (t.clone(), peer.clone(), log.clone());
     match sc.effect {
-        Effect::None | Effect::QueuedCall => {}
+        Effect::None | Effect::QueuedCall | Effect::Outsider => {}
         Effect::JoinGroups => pre.push(custom("join", |me| {
             ractor::pg::join("g1".into(), vec![me.get_cell()]);
             ractor::pg::join_scoped("s".into(), "g2".into(), vec![me.get_cell()]);
@@ -127,7 +130,9 @@ async fn run(sc: Sc) -> Outcome {
         match cause {
             Cause::KilledDuringStart => {
                 for _ in 0..50 {
-                    if let Some(c) = st2.lock().unwrap().clone() {
+                    // (never hold the harness lock across a scheduling point: take the value out first)
+                    let c = st2.lock().unwrap().clone();
+                    if let Some(c) = c {
                         c.kill();
                         return;
                     }
@@ -139,6 +144,24 @@ async fn run(sc: Sc) -> Outcome {
             }
             Cause::SupervisorStopping => s2.stop(None),
             _ => {}
+        }
+    });
+    let st4 = stash.clone();
+    let want_outsider = sc.effect == Effect::Outsider;
+    let (t4, peer4) = (t.clone(), peer.clone());
+    let outsider = vsched::spawn("racer", async move {
+        if !want_outsider {
+            return;
+        }
+        for _ in 0..50 {
+            let c = st4.lock().unwrap().clone();
+            if let Some(c) = c {
+                ractor::pg::join("og".into(), vec![peer4.get_cell(), c.clone()]);
+                ractor::pg::monitor("og2".into(), c.clone());
+                c.link(t4.get_cell());
+                return;
+            }
+            vsched::yield_now().await;
         }
     });
     let st3 = stash.clone();
@@ -219,6 +242,7 @@ async fn run(sc: Sc) -> Outcome {
         }
     }
     let _ = racer.await;
+    let _ = outsider.await;
     vsched::quiesce_time();
     let cell = stash.lock().unwrap().clone();
     let x_events = log.of("X");
@@ -428,6 +452,19 @@ pub fn plan(tier: &str) -> Plan {
     for sc in scs {
         units.push(Unit::explore(Job::new(format!("c08/{}", sc.name()), cfg.clone(), Some(bound), body(sc))));
     }
+    // an outsider joins / monitors / links the starting actor while its start fails: explored with a
+    // decision point before every DashMap, lock and atomic operation of every task
+    let s_kinds: &'static [vsched::PointKind] = &[vsched::PointKind::Atomic, vsched::PointKind::Lock, vsched::PointKind::Map, vsched::PointKind::Other];
+    let fine = ExecCfg { filter: Some(std::sync::Arc::new(move |k, _l, _t| s_kinds.contains(&k))), ..Default::default() };
+    for kind in kinds {
+        for (variant, cause) in [(Variant::Plain, Cause::PreStartErr), (Variant::Linked, Cause::PreStartPanic), (Variant::Plain, Cause::KilledDuringStart), (Variant::Instant, Cause::PreStartErr)] {
+            if !thorough && kind == Kind::Local && variant != Variant::Plain {
+                continue;
+            }
+            let sc = Sc { kind, variant, cause, effect: Effect::Outsider };
+            units.push(Unit::explore_split(Job::new(format!("c08/{}", sc.name()), fine.clone(), Some(bound), body(sc)), 8));
+        }
+    }
     // cut-point enumeration: the start future dropped before its k-th poll, for every k
     for kind in kinds {
         for variant in [Variant::Plain, Variant::Linked] {
@@ -458,7 +495,7 @@ pub fn plan(tier: &str) -> Plan {
     Plan {
         property: "C08",
         units,
-        rule: "scenario grid (Send/thread-local x spawn variant x failure cause x side effect performed by pre_start) plus cut-point enumeration (the future returned by spawn() dropped before its k-th poll, the task of an instant spawn aborted before its k-th poll, every k), each under a deviation-bounded DFS over task-level schedules of the real code; oracle at quiescence: no callback after the failure, status Stopped and late waits return, name reusable, no trace in pg, in any child set or in any supervisor's event log, queued calls fail instead of hanging, a name clash leaves the holder untouched; non-trivial = execution with >= 1 branching decision".into(),
+        rule: "scenario grid (Send/thread-local x spawn variant x failure cause x side effect performed by pre_start or by an outsider task (join / monitor / link from outside, explored with a decision point before every map, lock and atomic step)) plus cut-point enumeration (the future returned by spawn() dropped before its k-th poll, the task of an instant spawn aborted before its k-th poll, every k), each under a deviation-bounded DFS over task-level schedules of the real code; oracle at quiescence: no callback after the failure, status Stopped and late waits return, name reusable, no trace in pg, in any child set or in any supervisor's event log, queued calls fail instead of hanging, a name clash leaves the holder untouched; non-trivial = execution with >= 1 branching decision".into(),
         assumptions: vec![
             "task granularity".into(),
             "a cut that lands after the actor reached post_start is not a failed spawn: the actor is then required to work and to clean up normally".into(),
